@@ -220,7 +220,8 @@ class BitStringEncoder(AbstractItemEncoder):
         while stop < valueLength:
             start = stop
             stop = min(start + maxChunkSize * 8, valueLength)
-            substrate += encodeFun(alignedValue[start:stop], asn1Spec, **options)
+            # the segments are value objects of the base type by now
+            substrate += encodeFun(alignedValue[start:stop], None, **options)
 
         return substrate, True, True
 
@@ -260,7 +261,9 @@ class OctetStringEncoder(AbstractItemEncoder):
 
             asn1Spec = value.clone(tagSet=tagSet)
 
-        elif not isOctetsType(value):
+        else:
+            # (also when the value comes as octets: the segments are of the
+            # base type whatever tags the string as a whole carries)
             baseTag = asn1Spec.tagSet.baseTag
 
             # strip off explicit tags
